@@ -251,7 +251,14 @@ class Lexer:
 
     def t_ANY_INTEGER(self, token):
         r'-?\d+'
-        token.value = int(token.value)
+        try:
+            token.value = int(token.value)
+        except ValueError:
+            # Python (3.11 and later) refuses to convert digit strings beyond
+            # a certain length.
+            self.errors.append(
+                ('Integer has too many digits.', token.lexer.lineno))
+            token.value = 0
         return token
 
     # Read in a string while respecting the following escape sequences:
